@@ -29,7 +29,7 @@ func getArrayPrototype() *Value {
 						return &v, nil
 					}
 
-					length := len(this.Array)
+					length := len(*this.Array)
 					lengthVal := NewValue(length)
 					return &lengthVal, nil
 				},
@@ -37,68 +37,71 @@ func getArrayPrototype() *Value {
 			"push": NewCell(Value{
 				Tag: ValueNativeFn,
 				NativeFn: func(e *Evaluator, v []*Value, this *Value) (*Value, error) {
-					if this == nil {
+					if this == nil || this.Tag != ValueArray {
+						// (not an array: the receiver's variable was reassigned while
+						// the arguments were evaluated)
 						return nil, nil
 					}
 					if err := checkArgCount(v, 1); err != nil {
 						return nil, err
 					}
 
-					this.Array = append(this.Array, NewCell(*v[0]))
+					*this.Array = append(*this.Array, NewCell(*v[0]))
 					return this, nil
 				},
 			}),
 			"pop": NewCell(Value{
 				Tag: ValueNativeFn,
 				NativeFn: func(e *Evaluator, v []*Value, this *Value) (*Value, error) {
-					if this == nil {
+					if this == nil || this.Tag != ValueArray {
 						return nil, nil
 					}
 					if err := checkArgCount(v, 0); err != nil {
 						return nil, err
 					}
 
-					if len(this.Array) == 0 {
+					if len(*this.Array) == 0 {
 						retVal := NewValue(nil)
 						return &retVal, nil
 					}
 
-					retVal := this.Array[len(this.Array)-1].Value
-					this.Array = this.Array[:len(this.Array)-1]
+					array := *this.Array
+					retVal := array[len(array)-1].Value
+					*this.Array = array[:len(array)-1]
 					return &retVal, nil
 				},
 			}),
 			"popfirst": NewCell(Value{
 				Tag: ValueNativeFn,
 				NativeFn: func(e *Evaluator, v []*Value, this *Value) (*Value, error) {
-					if this == nil {
+					if this == nil || this.Tag != ValueArray {
 						return nil, nil
 					}
 					if err := checkArgCount(v, 0); err != nil {
 						return nil, err
 					}
 
-					if len(this.Array) == 0 {
+					if len(*this.Array) == 0 {
 						retVal := NewValue(nil)
 						return &retVal, nil
 					}
 
-					retVal := this.Array[0].Value
-					this.Array = this.Array[1:]
+					retVal := (*this.Array)[0].Value
+					*this.Array = (*this.Array)[1:]
 					return &retVal, nil
 				},
 			}),
 			"contains": NewCell(Value{
 				Tag: ValueNativeFn,
 				NativeFn: func(e *Evaluator, v []*Value, this *Value) (*Value, error) {
-					if this == nil {
+					if this == nil || this.Tag != ValueArray {
 						return nil, nil
 					}
 					if err := checkArgCount(v, 1); err != nil {
 						return nil, err
 					}
 
-					for _, item := range this.Array {
+					for _, item := range *this.Array {
 						if v[0].Tag == ValueUnknown || item.Value.Tag == ValueUnknown {
 							// like ==, which is false for a value that was never
 							// assigned
@@ -121,23 +124,23 @@ func getArrayPrototype() *Value {
 			"sort": NewCell(Value{
 				Tag: ValueNativeFn,
 				NativeFn: func(e *Evaluator, v []*Value, this *Value) (*Value, error) {
-					if this == nil {
+					if this == nil || this.Tag != ValueArray {
 						return nil, nil
 					}
 
 					// is this array only numbers?
 					onlyNumbers := true
-					for _, item := range this.Array {
+					for _, item := range *this.Array {
 						if item.Value.Tag != ValueNum {
 							onlyNumbers = false
 							break
 						}
 					}
 
-					verifCharge(len(this.Array) + 1)
+					verifCharge(len(*this.Array) + 1)
 					// make a clone
-					clone := make([]*Cell, len(this.Array))
-					for i, item := range this.Array {
+					clone := make([]*Cell, len(*this.Array))
+					for i, item := range *this.Array {
 						clone[i] = &Cell{}
 						copyValue(item, clone[i])
 					}
